@@ -3,6 +3,7 @@ package props
 import (
 	"fmt"
 	"runtime"
+	"strings"
 	"sync"
 	"sync/atomic"
 	"testing"
@@ -362,6 +363,23 @@ func evalC12(c *engine.Case) engine.Verdict {
 	sc := c.Sc
 	engine.ScenarioClasses(&v, sc)
 	well := engine.SingleInput(sc) || (!engine.DepCyclic(sc, engine.RPlus) && engine.AllConvsSatisfiable(sc, engine.RMinus))
+	// number of supplied values among the call-time options (they come first)
+	nWithheld := len(sc.Inputs) - x.Defaults
+	if x.Defaults > len(sc.Inputs) {
+		nWithheld = 0
+	}
+	if sc.JoinTyped {
+		nWithheld = 0
+	}
+	wantShared := false
+	for _, ops := range x.Ops {
+		for _, op := range ops {
+			wantShared = wantShared || op == "sharedrf"
+		}
+	}
+	// one redefined function per world, made before the goroutines start and
+	// CALLED by all of them (op "sharedrf"), each with a value of its own
+	sharedRF := map[*engine.World]*argmapper.Func{}
 	build := func() (*engine.World, *argmapper.Func, []argmapper.Arg) {
 		w := engine.NewWorld()
 		if x.Yield > 0 {
@@ -394,23 +412,38 @@ func evalC12(c *engine.Case) engine.Verdict {
 		// shared slice gets spare capacity on purpose
 		shared := make([]argmapper.Arg, 0, len(args)+8)
 		shared = append(shared, args[nd:]...)
+		if wantShared && nWithheld > 0 {
+			var o engine.Outcome
+			engine.Protect(&o, func() {
+				if rf, rerr := f.Redefine(shared[1:]...); rerr == nil {
+					sharedRF[w] = rf
+				}
+			})
+		}
 		return w, f, shared
 	}
 	typ := sc.Target.In[0].Type
-	// number of supplied values among the call-time options (they come first)
-	nWithheld := len(sc.Inputs) - x.Defaults
-	if x.Defaults > len(sc.Inputs) {
-		nWithheld = 0
-	}
-	if sc.JoinTyped {
-		nWithheld = 0
-	}
+	ownTok := func(tag int) int { return 10000 + tag }
 	doOp := func(w *engine.World, f *argmapper.Func, args []argmapper.Arg, op string, tag int) string {
 		switch op {
 		case "call":
 			return outcomeClass(w.Call(f, args))
 		case "convert":
 			return outcomeClass(w.Convert(typ, args))
+		case "sharedrf":
+			rf := sharedRF[w]
+			if rf == nil {
+				return outcomeClass(w.Call(f, args))
+			}
+			nd := x.Defaults
+			if nd > len(sc.Inputs) {
+				nd = len(sc.Inputs)
+			}
+			own := sc.Inputs[nd]
+			own.Tok = ownTok(tag)
+			w.RegisterInput(own)
+			w.AddAltLabels(own.Tok, rf)
+			return "rf:" + outcomeClass(w.Call(rf, []argmapper.Arg{engine.InputArg(own), engine.Quiet()}))
 		default:
 			var rf *argmapper.Func
 			var rerr error
@@ -488,9 +521,65 @@ func evalC12(c *engine.Case) engine.Verdict {
 		return v
 	}
 	shared := engine.ConvExecs(evs) > 0
+	if rf := sharedRF[w]; rf != nil {
+		v.Class("one-redefined-function-called-by-several-goroutines")
+		// every goroutine handed the shared redefined function a value of its
+		// own: where the route is determined by the call alone, either every
+		// such call used its value or none did -- a call that ran with another
+		// goroutine's value shows up as one value used twice and one not at all
+		// (the goroutine's own value reaches the inner call next to what
+		// Redefine was given, never in the same option list: no supplied value
+		// shadows another one here, all of them count as candidates)
+		unique := true
+		noInputs := *sc
+		noInputs.Inputs = nil
+		srcs := engine.AllSourceLabels(&noInputs)
+		for _, in := range sc.Inputs {
+			l := in.L
+			l.Dyn = l.Type
+			srcs = append(srcs, l)
+		}
+		fs := append(append([]engine.FuncSpec{sc.Target}, sc.Convs...), engine.GeneratedConvs(sc)...)
+		for i := range fs {
+			for _, p := range fs[i].In {
+				if engine.Candidates(p, srcs, engine.RPlus) > 1 {
+					unique = false
+				}
+			}
+		}
+		if unique && well && !hasFailing(sc) {
+			uses := map[int]int{}
+			for _, ev := range evs {
+				for _, a := range ev.Args {
+					if a.Tok >= 10000 {
+						uses[a.Tok]++
+					}
+				}
+			}
+			first, have := 0, false
+			for gi, ops := range x.Ops {
+				for oi, op := range ops {
+					if op != "sharedrf" || !strings.HasPrefix(got[gi][oi], "rf:ok") {
+						continue
+					}
+					n := uses[ownTok(gi*100+oi)]
+					if !have {
+						first, have = n, true
+					} else if n != first {
+						v.Failf("goroutine %d op %d: the value handed to the shared redefined function was used %d time(s), another goroutine's value %d time(s) -- calls ran with each other's arguments", gi, oi, n, first)
+						return v
+					}
+				}
+			}
+			if have {
+				v.Class("shared-redefined-function-route-determined")
+			}
+		}
+	}
+	rfFirst := ""
 	for gi := range got {
 		for oi := range got[gi] {
-			if got[gi][oi] == "panic" || got[gi][oi] == "redefine-panic" {
+			if got[gi][oi] == "panic" || got[gi][oi] == "redefine-panic" || got[gi][oi] == "rf:panic" {
 				v.Failf("goroutine %d op %d (%s) panicked", gi, oi, x.Ops[gi][oi])
 				return v
 			}
@@ -505,6 +594,20 @@ func evalC12(c *engine.Case) engine.Verdict {
 				s2 := *sc
 				s2.Inputs = sc.Inputs[nd:]
 				wellOp = engine.SingleInput(&s2) || (!engine.DepCyclic(&s2, engine.RPlus) && engine.AllConvsSatisfiable(&s2, engine.RMinus))
+			}
+			if x.Ops[gi][oi] == "sharedrf" && sharedRF[w] != nil {
+				// the twin world made a redefined function of its own, whose
+				// inputs depend on equal-cost ties at planning time: calls of
+				// the SAME redefined function are compared with each other
+				if wellOp && !hasFailing(sc) {
+					if rfFirst == "" {
+						rfFirst = got[gi][oi]
+					} else if got[gi][oi] != rfFirst {
+						v.Failf("goroutine %d op %d: the shared redefined function gave outcome %q, the same call in another goroutine %q", gi, oi, got[gi][oi], rfFirst)
+						return v
+					}
+				}
+				continue
 			}
 			if wellOp && !hasFailing(sc) && got[gi][oi] != want[gi][oi] {
 				v.Failf("goroutine %d op %d (%s): outcome %q, sequential execution gives %q", gi, oi, x.Ops[gi][oi], got[gi][oi], want[gi][oi])
@@ -561,7 +664,7 @@ func genC12(g engine.G) *engine.Case {
 	for i := 0; i < ng; i++ {
 		var ops []string
 		for k, n := 0, g.Int(1, 5); k < n; k++ {
-			ops = append(ops, engine.Pick(g, []string{"call", "call", "call", "convert", "redefcall"}))
+			ops = append(ops, engine.Pick(g, []string{"call", "call", "call", "convert", "redefcall", "sharedrf"}))
 		}
 		x.Ops = append(x.Ops, ops)
 	}
